@@ -135,8 +135,8 @@ func (cf *cfg) String() string {
 
 // knobs is the non-structural configuration of one run.
 type knobs struct {
-	cap   int // NodesToShufflePerShard: -1 = no MaxNodesEnableConfig entry (default = NodesShard), else 0 or 1
-	nNew  int
+	cap   int8 // NodesToShufflePerShard: -1 = no MaxNodesEnableConfig entry (default = NodesShard), else 0 or 1
+	nNew  int8
 	fix   bool // waiting-list fix flag (Epoch >= WaitingListFixEnableEpoch)
 	bal   bool // balance-waiting-lists flag (Epoch >= BalanceWaitingListsEnableEpoch)
 	cross bool // ShuffleBetweenShards: CrossShardValidatorDistributor, else IntraShardValidatorDistributor
@@ -190,6 +190,8 @@ func known(cf *cfg) []uint8 {
 //	         in slot order.
 //	counts:  for every (chain, eligible|waiting) class of size s every (u,a), u+a<=s: the first
 //	         u slots are unstake-leaving, the next a slots additional-leaving.
+//	bulk:    every chain independently: nobody leaves / all its validators unstake-leaving /
+//	         all additional-leaving / eligible unstake + waiting additional / the reverse.
 type leaveSpec struct {
 	kind     string
 	distinct int
@@ -217,11 +219,8 @@ func genLeaving(ls leaveSpec, cf *cfg, nNew int, yield func(u, a []uint8)) {
 		used := make([]bool, len(uni))
 		var rec func(distinct int, dupUsed bool)
 		rec = func(distinct int, dupUsed bool) {
-			for j := 0; j <= len(seq); j++ {
+			for j := len(seq); j >= 0; j-- { // all-unstake split first
 				yield(seq[:j], seq[j:])
-				if len(seq) == 0 {
-					break
-				}
 			}
 			for p := range uni {
 				if !used[p] {
@@ -298,18 +297,66 @@ func genLeaving(ls leaveSpec, cf *cfg, nNew int, yield func(u, a []uint8)) {
 			}
 		}
 		rec(0)
+	case "bulk":
+		chains := cf.chains()
+		u := make([]uint8, 0, 16)
+		a := make([]uint8, 0, 16)
+		var rec func(i int)
+		rec = func(i int) {
+			if i == len(chains) {
+				yield(u, a)
+				return
+			}
+			ch := chains[i]
+			var el, wl []uint8
+			for j := 0; j < cf.e[ch]; j++ {
+				el = append(el, idOf(ch, 0, j))
+			}
+			for j := 0; j < cf.w[ch]; j++ {
+				wl = append(wl, idOf(ch, 1, j))
+			}
+			for mode := 0; mode < 5; mode++ {
+				lu, la := len(u), len(a)
+				switch mode {
+				case 1:
+					u = append(append(u, el...), wl...)
+				case 2:
+					a = append(append(a, el...), wl...)
+				case 3:
+					u = append(u, el...)
+					a = append(a, wl...)
+				case 4:
+					u = append(u, wl...)
+					a = append(a, el...)
+				}
+				rec(i + 1)
+				u, a = u[:lu], a[:la]
+			}
+		}
+		rec(0)
 	default:
 		panic("unknown leaving generator " + ls.kind)
 	}
 }
 
 // ---------------------------------------------------------------------------------------
-// Slices: each one is an exhaustively enumerated product.
+// Slices: each one is an exhaustively enumerated product
+//   configs (shard count x list sizes x minimums [x empty-as-absent]) x knobs x seeds x leaving.
+// Depth of the leaving generator and strength of the randomness alphabet are functions of the
+// number of listed validators ("total"), because the product grows with it.
 // ---------------------------------------------------------------------------------------
+
+// seedRule: the alphabet of a case with hashed key set H realises every order of every
+// sub-subset of H and every order of H's first ref keys (both clipped to |H|, so the alphabet
+// is permutation-complete when |H| <= max(sub, ref)).
+type seedRule struct{ sub, ref int }
+
+func (r seedRule) String() string { return fmt.Sprintf("%d-subsets+first%d", r.sub, r.ref) }
 
 type lenRule struct {
 	maxTotal int // applies to configs with at most this many eligible+waiting validators
 	spec     leaveSpec
+	seeds    seedRule
 }
 
 type slice struct {
@@ -321,44 +368,43 @@ type slice struct {
 	caps    []int
 	maxNew  int
 	fixes   []bool
-	missing bool      // additionally run every config with an empty list once with that list absent from the map
+	missing bool      // additionally run every config that has an empty list with that list absent from the map
 	rules   []lenRule // first rule whose maxTotal >= cfg.total() applies; none -> config not in slice
-	under   leaveSpec // generator for under-populated configs (an error is expected there)
-	tway    int       // strength of the randomness alphabet (see seeds.go)
+	under   leaveSpec // generator for under-populated configs (an error is expected there), 1 seed
 }
 
 type task struct {
-	sl    *slice
-	cf    cfg
-	kn    knobs
-	spec  leaveSpec
-	seeds int // 0 = whole alphabet of the hashed set, else only the first n seeds
-	n     int64
+	sl   *slice
+	cf   *cfg
+	kn   knobs
+	rule *lenRule
+	spec *leaveSpec
+	n    int64
+}
+
+var underSeeds = seedRule{1, 1}
+
+func (t *task) seedRule() seedRule {
+	if t.rule == nil {
+		return underSeeds
+	}
+	return t.rule.seeds
 }
 
 func (t *task) seedList(alpha *alphabets) []string {
-	s := alpha.get(hashed(&t.cf, t.kn.nNew), t.sl.tway)
-	if t.seeds > 0 && len(s) > t.seeds {
-		s = s[:t.seeds]
-	}
-	return s
+	return alpha.get(hashed(t.cf, int(t.kn.nNew)), t.seedRule())
 }
 
 func (t *task) size(alpha *alphabets) int64 {
-	if t.n == 0 {
-		n := int64(0)
-		genLeaving(t.spec, &t.cf, t.kn.nNew, func(u, a []uint8) { n++ })
-		t.n = n
-	}
 	return t.n * int64(len(t.seedList(alpha)))
 }
 
 func (t *task) run(l *local, alpha *alphabets) {
 	seeds := t.seedList(alpha)
-	l.begin(&t.cf, &t.kn)
+	l.begin(t.cf, &t.kn)
 	for _, s := range seeds {
 		l.setSeed(s)
-		genLeaving(t.spec, &t.cf, t.kn.nNew, l.eval)
+		genLeaving(*t.spec, t.cf, int(t.kn.nNew), l.eval)
 	}
 	l.end()
 }
@@ -395,20 +441,21 @@ func buildTasks(c *mc.Ctx, slices []slice) []task {
 			}
 			rec(0, cfg{nb: nb})
 		}
-		for _, cf := range cfgs {
-			var spec leaveSpec
-			seeds := 0
+		for ci := range cfgs {
+			cf := &cfgs[ci]
+			var spec *leaveSpec
+			var rule *lenRule
 			if !cf.populated() {
-				spec, seeds = sl.under, 1
+				spec = &sl.under
 			} else {
-				found := false
-				for _, r := range sl.rules {
-					if cf.total() <= r.maxTotal {
-						spec, found = r.spec, true
+				for ri := range sl.rules {
+					if cf.total() <= sl.rules[ri].maxTotal {
+						rule = &sl.rules[ri]
+						spec = &rule.spec
 						break
 					}
 				}
-				if !found {
+				if spec == nil {
 					continue
 				}
 			}
@@ -417,8 +464,8 @@ func buildTasks(c *mc.Ctx, slices []slice) []task {
 					for _, fix := range sl.fixes {
 						for _, bal := range []bool{false, true} {
 							for _, cross := range []bool{false, true} {
-								tasks = append(tasks, task{sl: sl, cf: cf, spec: spec, seeds: seeds,
-									kn: knobs{cap: cp, nNew: nn, fix: fix, bal: bal, cross: cross}})
+								tasks = append(tasks, task{sl: sl, cf: cf, spec: spec, rule: rule,
+									kn: knobs{cap: int8(cp), nNew: int8(nn), fix: fix, bal: bal, cross: cross}})
 							}
 						}
 					}
@@ -426,22 +473,22 @@ func buildTasks(c *mc.Ctx, slices []slice) []task {
 			}
 		}
 	}
-	// biggest first (load balance); size without the seed factor is good enough. The number
-	// of leaving inputs only depends on the generator and the list sizes: cache it.
+	// The number of leaving inputs only depends on the generator and the list sizes: cache it.
 	cnt := map[string]int64{}
 	for i := range tasks {
 		t := &tasks[i]
-		k := fmt.Sprint(t.spec, t.cf.nb, t.cf.e, t.cf.w, t.kn.nNew)
+		k := fmt.Sprint(*t.spec, t.cf.nb, t.cf.e, t.cf.w, t.kn.nNew)
 		if t.spec.kind == "ordered" {
-			k = fmt.Sprint(t.spec, t.cf.total(), t.kn.nNew)
+			k = fmt.Sprint(*t.spec, t.cf.total(), t.kn.nNew)
 		}
 		n, ok := cnt[k]
 		if !ok {
-			genLeaving(t.spec, &t.cf, t.kn.nNew, func(u, a []uint8) { n++ })
+			genLeaving(*t.spec, t.cf, int(t.kn.nNew), func(u, a []uint8) { n++ })
 			cnt[k] = n
 		}
 		t.n = n
 	}
+	// biggest first (load balance); size without the seed factor is good enough
 	idx := make([]int, len(tasks))
 	for i := range idx {
 		idx[i] = i
@@ -458,39 +505,46 @@ func ord(distinct int, dup bool) leaveSpec {
 	return leaveSpec{kind: "ordered", distinct: distinct, dup: dup}
 }
 
+var (
+	assign3 = leaveSpec{kind: "assign3"}
+	counts  = leaveSpec{kind: "counts"}
+	bulk    = leaveSpec{kind: "bulk"}
+)
+
 func slicesFor(prop string, quick bool) []slice {
 	both := []bool{false, true}
+	on := []bool{true}
 	caps := []int{-1, 0, 1}
+	m3 := []int{1, 2, 3}
+	nb12 := []int{1, 2}
+	pair, triple, quad := seedRule{2, 2}, seedRule{3, 3}, seedRule{3, 4}
+	_ = quad
 	if prop == "C12" {
 		if quick {
-			return []slice{{
-				name: "C12-quick", nbs: []int{1, 2}, maxE: 2, maxW: 1, mins: []int{1, 2, 3}, caps: caps, maxNew: 2,
-				fixes: both, missing: true, tway: 3, under: ord(1, false),
-				rules: []lenRule{{4, ord(2, true)}, {6, ord(2, false)}, {9, ord(1, true)}},
-			}}
+			return []slice{
+				{name: "Q-wide", nbs: nb12, maxE: 2, maxW: 1, mins: m3, caps: caps, maxNew: 2, fixes: both, missing: true, under: ord(1, false),
+					rules: []lenRule{{3, ord(2, true), triple}, {4, ord(2, true), pair}, {9, ord(1, true), pair}}},
+			}
 		}
-		return []slice{{
-			name: "C12-thorough", nbs: []int{1, 2}, maxE: 3, maxW: 2, mins: []int{1, 2, 3}, caps: caps, maxNew: 2,
-			fixes: both, missing: true, tway: 3, under: ord(1, false),
-			rules: []lenRule{{4, ord(3, true)}, {6, ord(3, false)}, {9, ord(2, true)}, {15, ord(1, true)}},
-		}}
+		return []slice{
+			{name: "T-wide", nbs: nb12, maxE: 3, maxW: 2, mins: m3, caps: caps, maxNew: 2, fixes: both, missing: false, under: ord(1, false),
+				rules: []lenRule{{15, ord(1, true), pair}}},
+			{name: "T-mid", nbs: nb12, maxE: 2, maxW: 1, mins: m3, caps: caps, maxNew: 2, fixes: both, missing: true, under: ord(1, false),
+				rules: []lenRule{{3, ord(3, true), triple}, {4, ord(2, true), quad}, {9, ord(2, true), pair}}},
+		}
 	}
 	// C14: waiting-list fix on.
-	on := []bool{true}
 	if quick {
 		return []slice{
-			{name: "C14-quick-assign", nbs: []int{1, 2}, maxE: 2, maxW: 2, mins: []int{1, 2, 3}, caps: caps, maxNew: 1,
-				fixes: on, missing: true, tway: 2, under: ord(1, false),
-				rules: []lenRule{{7, leaveSpec{kind: "assign3"}}, {12, leaveSpec{kind: "counts"}}}},
+			{name: "Q-assign", nbs: nb12, maxE: 2, maxW: 2, mins: m3, caps: caps, maxNew: 1, fixes: on, missing: true, under: ord(1, false),
+				rules: []lenRule{{5, assign3, pair}}},
 		}
 	}
 	return []slice{
-		{name: "C14-thorough-assign", nbs: []int{1, 2}, maxE: 3, maxW: 2, mins: []int{1, 2, 3}, caps: caps, maxNew: 2,
-			fixes: on, missing: true, tway: 2, under: ord(1, false),
-			rules: []lenRule{{9, leaveSpec{kind: "assign3"}}, {15, leaveSpec{kind: "counts"}}}},
-		{name: "C14-thorough-ordered", nbs: []int{1, 2}, maxE: 2, maxW: 1, mins: []int{1, 2, 3}, caps: caps, maxNew: 1,
-			fixes: on, missing: false, tway: 2, under: ord(1, false),
-			rules: []lenRule{{9, ord(2, true)}}},
+		{name: "T-assign", nbs: nb12, maxE: 3, maxW: 2, mins: m3, caps: caps, maxNew: 1, fixes: on, missing: true, under: ord(1, false),
+			rules: []lenRule{{6, assign3, pair}, {8, counts, pair}, {15, bulk, pair}}},
+		{name: "T-ordered", nbs: nb12, maxE: 2, maxW: 1, mins: m3, caps: caps, maxNew: 1, fixes: on, missing: false, under: ord(1, false),
+			rules: []lenRule{{9, ord(2, true), pair}}},
 	}
 }
 
@@ -499,25 +553,24 @@ func describe(c *mc.Ctx, slices []slice, alpha *alphabets) {
 	for _, sl := range slices {
 		var rs []string
 		for _, r := range sl.rules {
-			rs = append(rs, fmt.Sprintf("<=%d validators: %s", r.maxTotal, r.spec))
+			rs = append(rs, fmt.Sprintf("<=%d listed validators: leaving %s, randomness %s", r.maxTotal, r.spec, r.seeds))
 		}
-		parts = append(parts, fmt.Sprintf("[%s: shards %v (+meta), eligible 0..%d, waiting 0..%d per chain, NodesShard/NodesMeta %v, NodesToShufflePerShard %v (-1=default), new nodes 0..%d, waitingListFix %v x balance {off,on} x {intra,cross}-shard distributor, empty lists also as absent map keys=%v, leaving requests by total size {%s}, under-populated configs (error expected): %s with 1 seed, randomness: %d-wise permutation-complete alphabet]",
-			sl.name, sl.nbs, sl.maxE, sl.maxW, sl.mins, sl.caps, sl.maxNew, sl.fixes, sl.missing, strings.Join(rs, "; "), sl.under, sl.tway))
+		parts = append(parts, fmt.Sprintf("[%s: shards %v (+meta) x eligible 0..%d x waiting 0..%d per chain x NodesShard,NodesMeta in %v x NodesToShufflePerShard %v (-1=default) x new nodes 0..%d x waitingListFix %v x balance {off,on} x {intra,cross}-shard distributor; empty lists also as absent map keys: %v; by size {%s}; configs with a chain below its minimum (error expected): %s, 1 seed]",
+			sl.name, sl.nbs, sl.maxE, sl.maxW, sl.mins, sl.caps, sl.maxNew, sl.fixes, sl.missing, strings.Join(rs, "; "), sl.under))
 	}
+	gloss := "; leaving 'ordered<=k,dup' = every pair (UnStakeLeaving, AdditionalLeaving) of ordered lists over eligible ∪ waiting ∪ new-node keys ∪ 2 ghost keys with <=k distinct keys in total and (dup) at most one key occurring twice; 'assign3' = every map listed validator -> {stays, UnStakeLeaving, AdditionalLeaving} (up to all validators leaving); 'counts' = per (chain, list) every (u,a), u+a<=size: first u slots unstake-leaving, next a additional-leaving; 'bulk' = per chain one of {nobody, all unstake, all additional, eligible unstake + waiting additional, the reverse}; randomness 'k-subsets+firstN' = seeds found at start-up with the real shuffleList realising every order of every k-subset of the hashed keys and of the first N hashed keys"
 	if c.Prop == "C12" {
-		c.Rule = "every input of the product " + strings.Join(parts, " + ") +
-			"; 'ordered<=k,dup' = every pair (UnStakeLeaving, AdditionalLeaving) of ordered lists over eligible ∪ waiting ∪ new-node keys ∪ 2 ghost keys with <=k distinct keys in total and at most one key occurring twice" +
-			"; non-trivial = a run with >=1 honoured (validator in Leaving) and >=1 refused (requested, known, still in a list) leaving request, keyed by (config, knobs, #honoured, #refused)"
+		c.Rule = "every input of " + strings.Join(parts, " + ") + gloss +
+			"; non-trivial = a run with >=1 honoured (validator in Leaving) and >=1 refused (requested, listed, still in a list) leaving request, keyed by (config, fix flag, #honoured, #refused)"
 	} else {
-		c.Rule = "every input of the product " + strings.Join(parts, " + ") +
-			"; precondition eligible+waiting >= minimum on every chain; 'assign3' = every map known validator -> {stays, UnStakeLeaving, AdditionalLeaving}, 'counts' = per (chain, list) every (u,a) with u+a<=size: first u slots unstake-leaving, next a additional-leaving" +
-			"; non-trivial = a run where >=1 leaving request of a listed validator was refused, keyed by (config, knobs, #honoured, #refused)"
+		c.Rule = "every input of " + strings.Join(parts, " + ") + gloss +
+			"; judged when eligible+waiting >= minimum on every chain; non-trivial = a run where >=1 leaving request of a listed validator was refused, keyed by (config, #honoured, #refused)"
 	}
 	c.Bound = "all slices completely enumerated"
 	c.Assumptions = append(c.Assumptions,
 		"input lists hold pairwise distinct validators (a validator is in at most one eligible/waiting list and new nodes are in none)",
 		"Adaptivity=false, Hysteresis=0 (split/merge are not implemented in the repo and only copy the maps)",
-		"randomness influences UpdateNodeLists only through the order sha256(pubKey||rand) induces on the keys passed to shuffleList (eligible and new validators); the alphabet realises, with the real shuffleList, every total order when a case hashes <=t+1 keys (t = strength above), otherwise every order of every t-subset and of the first t+1 hashed keys",
+		"randomness influences UpdateNodeLists only through the order sha256(pubKey||rand) induces on the keys passed to shuffleList (eligible and new validators); 'any randomness' is covered up to the stated strength, not for every total order of larger key sets",
 		"the two ghost keys are interchangeable (never hashed, only compared for equality), so only lists where G1 follows G0 are run",
 	)
 	if c.Prop == "C12" {
